@@ -1,13 +1,15 @@
 #!/usr/bin/env python3
-"""import_mutants.py <ID> : copy /tmp/mut/<ID>/MUTANT/{patch,demo,notes}<k> into /verif/seeded/<ID>-<k>/ with a meta.json skeleton"""
+"""import_mutants.py <ID> [srcroot=/tmp/mut] [offset=0] : copy <srcroot>/<ID>/MUTANT/{patch,demo,notes}<k> into /verif/seeded/<ID>-<k+offset>/ with a meta.json skeleton"""
 import sys, os, re, json, shutil
 pid = sys.argv[1]
-src = f"/tmp/mut/{pid}/MUTANT"
+root = sys.argv[2] if len(sys.argv) > 2 else "/tmp/mut"
+off = int(sys.argv[3]) if len(sys.argv) > 3 else 0
+src = f"{root}/{pid}/MUTANT"
 for k in (1, 2):
     p = f"{src}/patch{k}.diff"
     if not os.path.exists(p):
         continue
-    dst = f"/verif/seeded/{pid}-{k}"
+    dst = f"/verif/seeded/{pid}-{k+off}"
     os.makedirs(dst, exist_ok=True)
     shutil.copy(p, f"{dst}/patch.diff")
     demo = open(f"{src}/demo{k}_test.go").read()
